@@ -362,6 +362,27 @@ def run_replace(ctx, structure, search, replace, spec, script, fraction=None, re
     return run
 
 
+def first_round_candidates(structure, pat, atol):
+    """How many ordered (atom, atom-image) pairs fit the first two pattern atoms by element and distance: what a distance-driven
+    search has to carry through its first round.  Used only to keep chained histories out of unphysically dense states (dozens of
+    same-element atoms packed into a cell a few A wide), where one search takes minutes."""
+    P = np.array(pat["positions"], float).reshape(-1, 3)
+    if len(P) < 2 or getattr(structure, "cell", None) is None:
+        return 0
+    els = [str(e) for e in structure.elements]
+    pos = np.array(structure.positions, float).reshape(-1, 3)
+    cell = np.array(structure.cell, float).reshape(3, 3)
+    ia = [i for i, e in enumerate(els) if e == pat["elements"][0]]
+    ib = [i for i, e in enumerate(els) if e == pat["elements"][1]]
+    if not ia or not ib:
+        return 0
+    d01 = float(np.linalg.norm(P[1] - P[0]))
+    offs = np.array([[i, j, k] for i in (-1, 0, 1) for j in (-1, 0, 1) for k in (-1, 0, 1)], float) @ cell
+    B = (pos[ib][None, :, :] + offs[:, None, :]).reshape(-1, 3)
+    d = np.linalg.norm(pos[ia][:, None, :] - B[None, :, :], axis=2)
+    return int((np.abs(d - d01) <= atol).sum())
+
+
 def shared_map(search_pat, replace_pat):
     """{replace index: search index} of atoms common to both patterns (same element, same coordinates) - computed
     independently of mofun.atoms.find_unchanged_atom_pairs."""
